@@ -104,7 +104,7 @@ def tree_tasks(cfg, alphabet_name, depth, visitor, split=2, batch=1):
 def standard_plan(ctx, visitor, depths_quick=(8, 7, 6, 5, 5), depths_thorough=(10, 9, 8, 7, 6),
                   boxes=("B0",), alphabets_fixed=("A013",), alphabet_pool=("A01", "Am201", "A01e6", "A3210", "A001"),
                   n_seeded=2, long_runs=True, refine_ops=False, deep_runs=False, rs_thorough=(1.05, 1.5, 2.0, 3.5, 8.0),
-                  n_seeded_thorough=None):
+                  n_seeded_thorough=None, extras=True):
     """the plan of DESIGN C02: trees per (N, r, alphabet) + deviation-bounded long runs"""
     tasks = []
     th = ctx.thorough
@@ -122,10 +122,12 @@ def standard_plan(ctx, visitor, depths_quick=(8, 7, 6, 5, 5), depths_thorough=(1
                         d += 3
                     elif k == 4:
                         d -= 1
+                    if th and r not in (2.0, 3.5):
+                        d -= 1      # the full depth for two values of r, one level less for the rest of the r grid
                     cfg = dict(N=N, r=r, box=bx)
                     tasks += list(tree_tasks(cfg, a, d, visitor, split=2 if d < 9 else 3))
     # the same trees driven through DoGlobalIteration(k), k > 1 (and one call for the whole depth)
-    for N in (1, 2, 3, 4, 5):
+    for N in ((1, 2, 3, 4, 5) if extras else ()):
         d = depths[N - 1]
         for r in ((2.0, 3.5) if th else (2.0,)):
             for bsz in ((2, 3, 4, d) if th else (2, 3, d)):
@@ -133,13 +135,13 @@ def standard_plan(ctx, visitor, depths_quick=(8, 7, 6, 5, 5), depths_thorough=(1
                     cfg = dict(N=N, r=r, box=boxes[0])
                     tasks += list(tree_tasks(cfg, a, d, visitor, split=2 if d < 9 else 3, batch=bsz))
     # a user Problem may hand back a new value holder instead of filling the one it was given
-    for N in ((1, 2, 3) if th else (1, 2)):
+    for N in (((1, 2, 3) if th else (1, 2)) if extras else ()):
         cfg = dict(N=N, r=2.0, box=boxes[0], holder="fresh")
         tasks += list(tree_tasks(cfg, "A013", depths[N - 1] - 1, visitor, split=2))
         tasks += list(tree_tasks(cfg, "A013", depths[N - 1] - 1, visitor, split=2, batch=3))
     # an unrelated solver of another dimension constructed before / after the solver under test and iterated between its
     # first calls; and a budget (itersLimit) far below the number of iterations made through the step-wise API
-    for N in ((1, 2, 3, 4) if th else (1, 2, 3)):
+    for N in (((1, 2, 3, 4) if th else (1, 2, 3)) if extras else ()):
         d = depths[N - 1] - 1
         for other in ([N + 1, "after"], [1 if N > 1 else 2, "before"]):
             tasks += list(tree_tasks(dict(N=N, r=2.0, box=boxes[0], other=other), "A013", d, visitor, split=2))
